@@ -150,6 +150,28 @@ def step (_ : Unit) : List String → Unit × String
         | .xml _ _ _ => o.cdataElems
         | _ => []
       some (runFormatter f (kidsEvents cd false tree) (declaredPrefixes tree))).getD "bad")
+  | "xs" :: _dom :: _src :: _sheet :: rest =>
+    -- a transformation of a given source: the option words and the events the engine delivers (a copied CDATA section
+    -- node of a Xerces DOM source arrives as a `cdata` event whatever the output method is)
+    ((), (do
+      let (attrWords, evWords) := splitBar rest
+      let attrs ← attrWords.mapM parseOutAttr
+      let evs ← parseEvents evWords
+      let o := processOutputSpec {} attrs
+      let f := setupFormatterListener o {}
+      some (runFormatter f evs)).getD "bad")
+  | ["eraw", kind, start, len, buf] =>
+    ((), (do
+      let start ← start.toNat?
+      let len ← len.toNat?
+      let buf ← str buf
+      let ev ← match kind with
+        | "raw" => some (Ev.raw (engineSlice XalanModel.Generated.C08.engineRawUsesStart buf start len))
+        | "cdata" => some (Ev.cdata (engineSlice XalanModel.Generated.C08.engineCdataUsesStart buf start len))
+        | "chars" => some (Ev.characters (engineSlice XalanModel.Generated.C08.engineCharactersUsesStart buf start len))
+        | _ => none
+      let cfg : SerCfg := { xmlDecl := false }
+      some (reply (renderAll {} (serialize cc cfg .dummy [.startElement (s "a") [], ev, .endElement (s "a")])))).getD "bad")
   | _ => ((), "bad")
 
 end Driver.C08
